@@ -1,5 +1,5 @@
 /- Completeness of beap search, part 3: the invariants through `_query_list_` / `query`. -/
-import PS.Proofs.Enum.BeapCompl
+import PS.Proofs.Enum.BeapEntered
 namespace PS.Beap
 open PS PS.G PS.Heapq
 set_option linter.unusedSectionVars false
@@ -126,7 +126,7 @@ theorem frp_trans (E : Env S) (x : Rat) (P : NT S Unit → Prop) (a b c : St S) 
 def QLK (E : Env S) (n : Nat) : Prop :=
   ∀ s nt ci r x, WInv E s → E4g s → FRset E x s → (∃ e, (s.clOf nt)[ci]? = some e ∧ e.fin < x) → queryList E n s nt ci = some r →
     WInv E r.1 ∧ E4g r.1 ∧ FRp E x s r.1 ∧ Keep4 x s r.1 ∧ PossComp E r.1 r.2.2 (nt, ci) ∧
-    (r.2.2 = [] → r.2.1 = true) ∧ (r.2.1 = true → r.2.2 = [])
+    (r.2.2 = [] → r.2.1 = true) ∧ (r.2.1 = true → r.2.2 = []) ∧ Entered r.1 nt ci
 def RQK (E : Env S) (n : Nat) : Prop :=
   ∀ s nt ci s' x c, WInv E s → E4g s → FRset E x s → (s.clOf nt)[ci]? = some c → c.fin < x → ci + 1 = (s.clOf nt).length →
     ¬ Entered s nt ci → runQuery E n s nt ci = some s' →
@@ -145,7 +145,8 @@ def AK (E : Env S) (n : Nat) : Prop :=
     All2 (PossK E s) acc done → (af = true → ae = true) →
     argsLoop E n s as cs ae af acc = some r →
     WInv E r.1 ∧ E4g r.1 ∧ FRp E x s r.1 ∧ Keep4 x s r.1 ∧ Ext s r.1 ∧ All2 (PossK E r.1) r.2.2.2 (done ++ as.zip cs) ∧
-    (r.2.2.1 = true → r.2.1 = true) ∧ (r.2.1 = true → ae = true ∨ [] ∈ r.2.2.2) ∧ (∀ l ∈ acc, l ∈ r.2.2.2)
+    (r.2.2.1 = true → r.2.1 = true) ∧ (r.2.1 = true → ae = true ∨ [] ∈ r.2.2.2) ∧ (∀ l ∈ acc, l ∈ r.2.2.2) ∧
+    (∀ a c, (a, c) ∈ as.zip cs → Entered r.1 a c)
 
 theorem not_lastGe_of_last (s : St S) (nt : NT S Unit) (ci : Nat) (e : Cost) (x : Rat) (he : (s.clOf nt)[ci]? = some e)
     (hl : ci + 1 = (s.clOf nt).length) (hx : e.fin < x) : ¬ lastGe s nt x := by
@@ -161,7 +162,7 @@ theorem qlk_step (E : Env S) (hpos : PosW E) (n : Nat) (ih : RQK E n) : QLK E (n
   split at h
   · next hemp =>
     cases h
-    refine ⟨hw, h4, hfr, Keep4.refl _ _, ?_, fun _ => rfl, fun _ => rfl⟩
+    refine ⟨hw, h4, hfr, Keep4.refl _ _, ?_, fun _ => rfl, fun _ => rfl, Or.inr hemp⟩
     have := idxDone_of_entered E s hw nt ci e he (Or.inr hemp) hfrnt
     unfold IdxDone at this
     rw [hw.e.e2 nt ci hemp] at this; exact this
@@ -173,7 +174,7 @@ theorem qlk_step (E : Env S) (hpos : PosW E) (n : Nat) (ih : RQK E n) : QLK E (n
       · next ps hps =>
         cases h
         have hba : s.bankAt nt ci = ps := by simp [St.bankAt, hps]
-        refine ⟨hw, h4, hfr, Keep4.refl _ _, ?_, fun hnil => ?_, fun hone => ?_⟩
+        refine ⟨hw, h4, hfr, Keep4.refl _ _, ?_, fun hnil => ?_, fun hone => ?_, Or.inl (by rw [hps]; rfl)⟩
         · have := idxDone_of_entered E s hw nt ci e he (Or.inl (by rw [hps]; rfl)) hfrnt
           unfold IdxDone at this
           rw [hba] at this; exact this
@@ -199,7 +200,7 @@ theorem qlk_step (E : Env S) (hpos : PosW E) (n : Nat) (ih : RQK E n) : QLK E (n
             split at h
             · next hemp1 =>
               cases h
-              refine ⟨g1, g2, g3, g4, ?_, fun _ => rfl, fun _ => rfl⟩
+              refine ⟨g1, g2, g3, g4, ?_, fun _ => rfl, fun _ => rfl, Or.inr hemp1⟩
               unfold IdxDone at g5
               rw [g1.e.e2 nt ci hemp1] at g5; exact g5
             · next hemp1 =>
@@ -207,7 +208,7 @@ theorem qlk_step (E : Env S) (hpos : PosW E) (n : Nat) (ih : RQK E n) : QLK E (n
               · next ps hps =>
                 cases h
                 have hba : s1.bankAt nt ci = ps := by simp [St.bankAt, hps]
-                refine ⟨g1, g2, g3, g4, ?_, fun hnil => ?_, fun hone => by cases hone⟩
+                refine ⟨g1, g2, g3, g4, ?_, fun hnil => ?_, fun hone => (by cases hone), Or.inl (by rw [hps]; rfl)⟩
                 · unfold IdxDone at g5; rw [hba] at g5; exact g5
                 · exfalso
                   simp only at hnil
@@ -291,7 +292,8 @@ theorem ak_step (E : Env S) (n : Nat) (ihQL : QLK E n) (ihA : AK E n) : AK E (n 
   cases as with
   | nil =>
     simp only [argsLoop] at h; cases h
-    exact ⟨hw, h4, hfr, Keep4.refl _ _, Ext.refl _, by simpa using hacc, haf, fun hh => Or.inl hh, fun l hl => hl⟩
+    exact ⟨hw, h4, hfr, Keep4.refl _ _, Ext.refl _, by simpa using hacc, haf, fun hh => Or.inl hh, fun l hl => hl,
+      fun a c hm => (by simp at hm)⟩
   | cons a as =>
     cases cs with
     | nil => simp [argsLoop] at h
@@ -301,7 +303,7 @@ theorem ak_step (E : Env S) (n : Nat) (ihQL : QLK E n) (ihA : AK E n) : AK E (n 
       · cases h
       · next s1 one poss hql =>
         obtain ⟨e0, he0, he0x⟩ := hb a c (by simp)
-        obtain ⟨g1, g2, g3, g4, g5, g6, g7⟩ := ihQL _ _ _ _ x hw h4 hfr ⟨e0, he0, he0x⟩ hql
+        obtain ⟨g1, g2, g3, g4, g5, g6, g7, g8⟩ := ihQL _ _ _ _ x hw h4 hfr ⟨e0, he0, he0x⟩ hql
         obtain ⟨_, c2, _⟩ := (cost_all E n).1 _ _ _ _ hw.c hql
         have g1 : WInv E s1 := g1
         have c2 : Ext s s1 := c2
@@ -315,11 +317,17 @@ theorem ak_step (E : Env S) (n : Nat) (ihQL : QLK E n) (ihA : AK E n) : AK E (n 
         have fin : ∀ ae' af', (af' = true → ae' = true) → (ae' = true → ae = true ∨ poss = []) →
             argsLoop E n s1 as cs ae' af' (acc ++ [poss]) = some r →
             WInv E r.1 ∧ E4g r.1 ∧ FRp E x s r.1 ∧ Keep4 x s r.1 ∧ Ext s r.1 ∧ All2 (PossK E r.1) r.2.2.2 (done ++ (a, c) :: as.zip cs) ∧
-            (r.2.2.1 = true → r.2.1 = true) ∧ (r.2.1 = true → ae = true ∨ [] ∈ r.2.2.2) ∧ (∀ l ∈ acc, l ∈ r.2.2.2) := by
+            (r.2.2.1 = true → r.2.1 = true) ∧ (r.2.1 = true → ae = true ∨ [] ∈ r.2.2.2) ∧ (∀ l ∈ acc, l ∈ r.2.2.2) ∧
+            (∀ a' c', (a', c') ∈ (a :: as).zip (c :: cs) → Entered r.1 a' c') := by
           intro ae' af' haf' hae' h'
-          obtain ⟨q1, q2, q3, q4, e2, q5, q6, q7, q8⟩ := ihA _ _ _ _ _ _ _ _ x g1 g2 hfr1 hb' hacc' haf' h'
+          obtain ⟨q1, q2, q3, q4, e2, q5, q6, q7, q8, q9⟩ := ihA _ _ _ _ _ _ _ _ x g1 g2 hfr1 hb' hacc' haf' h'
           refine ⟨q1, q2, fun S' hl' => frp_trans E x (fun _ => True) s s1 r.1 (fun S' _ hl' => g3 S' hl') (fun S' _ hl' => q3 S' hl') q4 e2 S' trivial hl',
-            g4.trans q4, c2.trans e2, by simpa using q5, q6, fun hh => ?_, fun l hl => q8 l (List.mem_append_left _ hl)⟩
+            g4.trans q4, c2.trans e2, by simpa using q5, q6, fun hh => ?_, fun l hl => q8 l (List.mem_append_left _ hl), fun a' c' hm => ?_⟩
+          rotate_left
+          · simp only [List.zip_cons_cons, List.mem_cons, Prod.mk.injEq] at hm
+            rcases hm with ⟨rfl, rfl⟩ | hm
+            · exact (entered_all E n).2.2.2.2 _ _ _ _ _ _ _ h' _ _ g8
+            · exact q9 a' c' hm
           rcases q7 hh with h1 | h1
           · rcases hae' h1 with h2 | h2
             · exact Or.inl h2
